@@ -131,6 +131,10 @@ func (in *Interp) intrinsic(fn *ssa.Function, args []Value) (Value, bool) {
 	case "verifPanics":
 		f := args[0].(Func)
 		return in.callCatchingPanic(f), true
+	case "verifOnBlock":
+		f := args[0].(Func)
+		in.onBlock = &f
+		return nil, true
 	case "verifNote":
 		in.p.notes = append(in.p.notes, in.strArg(args[0]))
 		return nil, true
@@ -960,5 +964,23 @@ func init() {
 		}
 		in.p.ex.res.Assumptions = appendUnique(in.p.ex.res.Assumptions, "(*net.UDPAddr).String() modelled as an injective encoding of (IP bytes, port, zone); hop only uses it as a map key")
 		return Str{r: arr.r, off: C64(0), n: n}
+	}
+}
+
+func init() {
+	libModels["(*sync/atomic.Value).CompareAndSwap"] = func(in *Interp, fn *ssa.Function, args []Value) Value {
+		p := in.fieldPtr(args[0].(Ptr), 0)
+		old := in.load(p, types.NewInterfaceType(nil, nil))
+		if in.p.Decide(in.valEq(old, args[1])) {
+			in.store(p, args[2])
+			return TTrue
+		}
+		return TFalse
+	}
+	libModels["(*sync/atomic.Value).Swap"] = func(in *Interp, fn *ssa.Function, args []Value) Value {
+		p := in.fieldPtr(args[0].(Ptr), 0)
+		old := in.load(p, types.NewInterfaceType(nil, nil))
+		in.store(p, args[1])
+		return old
 	}
 }
